@@ -70,8 +70,10 @@ namespace {
                                                   [](signed char x, signed char y) { return cmp3(x, y); });
    }
 
-   enum Cmp { CInt, CAddr, CLex, NCmp };
-   const char* cmp_name[] = { "int", "addr", "lex" };
+   // CWide: a comparator whose result is a 64-bit difference far outside the range of int (the trees take `auto` for the
+   // result and only look at its sign, so such a comparator is admissible)
+   enum Cmp { CInt, CAddr, CLex, CWide, NCmp };
+   const char* cmp_name[] = { "int", "addr", "lex", "wide" };
 
    // ---- generic validation of a red-black tree rooted at `root` ----
    template<class N, class KeyOf, class Comp>
@@ -197,10 +199,11 @@ namespace {
    }
 
    // Key value compare, by comparator family, on integer key names.
-   int key_compare(Cmp c, long a, long b)
+   long long key_compare(Cmp c, long a, long b)
    {
       switch (c) {
       case CInt: return cmp3(a, b);
+      case CWide: return (static_cast<long long>(a) - b) * (3LL << 30);
       case CAddr: return compare(elems[a], elems[b]);
       default: return compare(seq_of(a), seq_of(b));
       }
@@ -211,14 +214,15 @@ namespace {
    template<Cmp C>
    void run_owning(const std::vector<long>& seq, const std::vector<long>& universe, bool check_every)
    {
-      using T = std::conditional_t<C == CInt, long, std::conditional_t<C == CAddr, AddrKey, SeqKey>>;
+      using T = std::conditional_t<C == CInt or C == CWide, long, std::conditional_t<C == CAddr, AddrKey, SeqKey>>;
       auto make_key = [](long k) -> T {
-         if constexpr (C == CInt) return k;
+         if constexpr (C == CInt or C == CWide) return k;
          else if constexpr (C == CAddr) return AddrKey{ &elems[k] };
          else return seq_of(k);
       };
-      auto cmp = [](const T& a, const T& b) -> int {
+      auto cmp = [](const T& a, const T& b) -> long long {
          if constexpr (C == CInt) return cmp3(a, b);
+         else if constexpr (C == CWide) return (static_cast<long long>(a) - b) * (3LL << 30);
          else if constexpr (C == CAddr) return compare(*a.p, *b.p);
          else return compare(a, b);
       };
@@ -322,11 +326,13 @@ namespace {
          if (cmps & 1) { opt.kick(); run_owning<CInt>(seq, universe, check_every); }
          if (cmps & 2) { opt.kick(); run_owning<CAddr>(seq, universe, check_every); }
          if (cmps & 4) { opt.kick(); run_owning<CLex>(seq, universe, check_every); }
+         if (cmps & 1) { opt.kick(); run_owning<CWide>(seq, universe, check_every); }
       }
       if (flavours & 2) {
          if (cmps & 1) { opt.kick(); run_chain<CInt>(seq, universe, check_every); }
          if (cmps & 2) { opt.kick(); run_chain<CAddr>(seq, universe, check_every); }
          if (cmps & 4) { opt.kick(); run_chain<CLex>(seq, universe, check_every); }
+         if (cmps & 1) { opt.kick(); run_chain<CWide>(seq, universe, check_every); }
       }
       vf::env::set_alloc(Alloc::Malloc);
       vf::env::arena_reset();
